@@ -28,7 +28,7 @@ func (o *cfgLayout) Rule() string {
 	return "a case is one layout of a configuration (shipped test configuration, optionally plus generated classes with extends chains, overloads and namespaced frames): every file renamed so that Glob order is a seeded permutation, and 0-6 classes split into 2-3 fragment files interleaved with the others (all overloads of one method name stay together, in order; in a third of the splits they are separated too, keeping their relative load order); the ti node boots on the canonical and on the permuted layout for corpus and probe programs in diagnostics, -i, the editor queries, the --llm listings and --extends (--define compared as a set of lines). non-trivial = the load order really differs from the canonical one; distinct = distinct (load-order permutation digest, split set) layouts"
 }
 func (o *cfgLayout) ExpectedFaults() []string {
-	return []string{"rename-permutation", "split-class", "split-overloads", "generated-classes"}
+	return []string{"rename-permutation", "split-class", "split-overloads", "generated-classes", "parents-from-several-files"}
 }
 
 // classFile is one config file decoded just enough to be re-fragmented.
@@ -433,6 +433,61 @@ func (o *cfgLayout) Make(c *Ctx, i int) *Case {
 	for j := len(ids) - 1; j > 0; j-- {
 		k := r.Intn(j + 1)
 		ids[j], ids[k] = ids[k], ids[j]
+	}
+	// files that each contribute parents (extends) to one and the same class keep their relative
+	// load order: a parent list is an ordered declaration, and the order between two lists
+	// that are declared separately is given by nothing but the order of arrival, so the check
+	// must not demand that it does not matter
+	{
+		byClass := map[string][]string{}
+		for _, cf := range cfs {
+			if cf.Obj == nil {
+				continue
+			}
+			var ext []string
+			if json.Unmarshal(cf.Obj["extends"], &ext) != nil || len(ext) == 0 {
+				continue
+			}
+			key := string(cf.Obj["frame"]) + "|" + string(cf.Obj["class"])
+			byClass[key] = append(byClass[key], cf.Name)
+		}
+		for _, fs := range byClass {
+			if len(fs) < 2 {
+				continue
+			}
+			in := map[string]bool{}
+			for _, f := range fs {
+				in[f] = true
+			}
+			base := func(id string) string {
+				if k := strings.IndexByte(id, '#'); k >= 0 {
+					return id[:k]
+				}
+				return id
+			}
+			var pos []int
+			var members []string
+			for j, id := range ids {
+				if in[base(id)] {
+					pos = append(pos, j)
+					members = append(members, id)
+				}
+			}
+			rank := map[string]int{}
+			for n, cf := range cfs {
+				rank[cf.Name] = n
+			}
+			sort.SliceStable(members, func(a, b int) bool {
+				if ra, rb := rank[base(members[a])], rank[base(members[b])]; ra != rb {
+					return ra < rb
+				}
+				return members[a] < members[b]
+			})
+			for n, j := range pos {
+				ids[j] = members[n]
+			}
+			cs.Faults = append(cs.Faults, "parents-from-several-files")
+		}
 	}
 	// fragments of a class whose overloads were separated keep their relative load order
 	for f := range spec.SplitOver {
